@@ -173,7 +173,7 @@ func init() {
 			if tier == "thorough" {
 				return 1500000
 			}
-			return 30000
+			return 100000
 		},
 		Budget: func(tier string) time.Duration {
 			if tier == "thorough" {
